@@ -6,6 +6,7 @@
   every channel of every component that the audio thread has picked up, once.
     mgr | newt | news | newc | tvol <k> | sseek | ctick <0|1> | cb <frames>
     stplay short|long | stseek | stcheck
+    sthook | stcmd by|to <k> | ststep      (the decoder loop stepped by hand: `Cmd.Decoder.step`)
   Real static sounds (audible on the right channel only) on the main track, on a sub-track and on a
   sub-track of that sub-track; each is a `Cmd.StaticComp` (channels + `StaticSound` model) living in the
   sound storage (`Store`) of its track; a callback is `Cmd.soundsOnStart` of every track, then
@@ -229,6 +230,25 @@ def deliverStep (st : DeliverState) (tok : List String) : Option (DeliverState Ã
         let (d', rs) := d.steps [false]
         let got := rs.any (fun r => r.1 == Cmd.StreamKind.seekTo && r.2.isSome)
         some ({ st with d := some d' }, s!"seek={if got then 1 else 0}")
+  | ["sthook"] =>
+      -- a stream that is not played: the ring never fills in the few steps of a case, the data never ends
+      some ({ st with d := some { chans := Chan.Prod.init, stopped := false, ended := false, ringFull := false } }, "ok")
+  | ["stcmd", which, k] => do
+      let k â† nat? k
+      match st.d with
+      | none => pure (st, "skip")
+      | some d =>
+        if which == "by" then pure ({ st with d := some { d with chans := d.chans.writeOp .seekBy k } }, "ok")
+        else if which == "to" then pure ({ st with d := some { d with chans := d.chans.writeOp .seekTo k } }, "ok")
+        else pure (st, "bad-op")
+  | ["ststep"] =>
+      match st.d with
+      | none => some (st, "skip")
+      | some d =>
+        let (d', rs) := d.step false
+        -- every seek command read in this step makes the decoder seek once
+        let n := (rs.filter (fun r => (r.1 == Cmd.StreamKind.seekBy || r.1 == Cmd.StreamKind.seekTo) && r.2.isSome)).length
+        some ({ st with d := some d' }, s!"seeks={n}")
   | _ => none
 
 end K.Exec
